@@ -280,7 +280,69 @@ def nocallback(run, E, reach, cuts):
         run.held('NOCALLBACK', 'Face::Table constructors', '', 'borrowed only in %s' % sorted(callers), False)
 
 
+def telescope(run):
+    """NOGLOBAL in the telemetry build (cmake -DGRAPHITE2_TELEMETRY=ON): every allocation adds to *telemetry::_category, a process-wide
+    pointer into the face being loaded.  Shaping threads allocate concurrently, so the pointer must be back to its pre-load value (null)
+    when gr_make_face returns: the scope guard telemetry::category saves the previous value in its constructor and its destructor puts
+    it back on every path (unconditionally: Pass::readStates switches the category with the raw set_category() inside a guard's
+    scope), and every raw set_category() call sits in a function that declared a guard before it."""
+    fx = run.facts('tele')
+    dt = fx.fns_named('graphite2::telemetry::category::~category')
+    ct = fx.fns_named('graphite2::telemetry::category::category')
+    if not dt or not ct:
+        run.broken('NOGLOBAL', 'telemetry scope guard', 'telemetry::category constructor / destructor not found in the telemetry configuration', '')
+        return
+    dt, ct = dt[0], ct[0]
+    G = 'graphite2::telemetry::_category'
+
+    def stores(fn):
+        return [e for _, e in fn.elements() if e['k'] == 'BinaryOperator' and e['op'] == '=' and fn.strip(e['c'][0]).get('d') == G]
+    saved = [e.get('field') for _, e in ct.elements() if e['k'] == 'Init' and e.get('init') is not None and any(w.get('d') == G for w in ct.walk(e['init']))]
+    inst = 'the allocation category is restored when a guard dies'
+    rest = [e for e in stores(dt) if dt.strip_all_casts(dt.N(e['c'][1])).get('d') in saved]
+    if not saved:
+        run.violated('NOGLOBAL', inst, ct.where(), 'telemetry::category no longer saves the previous category in its constructor')
+    elif not rest:
+        run.violated('NOGLOBAL', inst, dt.where(), 'telemetry::category::~category does not store the saved category back into telemetry::_category')
+    else:
+        blocks = set(dt.block_of[e['i']] for e in rest)
+        seen, st, path = set(), [(dt.entry, [dt.entry])], None
+        while st:
+            b, p_ = st.pop()
+            if b in seen or b in blocks:
+                continue
+            seen.add(b)
+            if b == dt.exit:
+                path = p_
+                break
+            st.extend((x, p_ + [x]) for x in dt.succs(b) if x is not None)
+        if path:
+            run.violated('NOGLOBAL', inst, dt.where(), 'a path through telemetry::category::~category (blocks %s) leaves telemetry::_category as it is: Pass::readStates changes the category with '
+                         'set_category() inside the guard\'s scope, so after gr_make_face the process-wide pointer still points into the face loaded last, and every allocation of '
+                         'every shaping thread does an unsynchronised `*_category += n` on that shared face (and writes to freed memory once it is destroyed)' % path)
+        else:
+            run.held('NOGLOBAL', inst, dt.where(), 'saved in %s, stored back on every path of the destructor' % saved)
+    n = 0
+    for fn in fx.all_fns():
+        for e in calls_in(fn, 'graphite2::telemetry::set_category'):
+            n += 1
+            guards = [d for _, d in fn.elements() if d['k'] == 'DeclStmt' and any('telemetry::category' in (x.get('t') or '') for x in d.get('decls', []))]
+            ok = [g for g in guards if fn.block_of[g['i']] in fn.dominators()[fn.block_of[e['i']]]]
+            i2 = 'raw set_category in %s @%s' % (fn.q.split('graphite2::')[-1], e['ln'])
+            if ok:
+                run.held('NOGLOBAL', i2, fn.loc(e), 'inside the scope of the guard declared at line %s' % ok[0]['ln'])
+            else:
+                run.violated('NOGLOBAL', i2, fn.loc(e), '%s switches the allocation category with set_category() without a telemetry::category guard declared before it: nothing puts the '
+                             'previous category back' % fn.q)
+    if n < 2:
+        run.broken('NOGLOBAL', 'raw set_category calls', 'expected the two calls in Pass::readStates, found %d' % n, '')
+
+
 def run(run):
+    try:
+        telescope(run)
+    except AnalysisBroken as ex:
+        run.broken('NOGLOBAL', 'telemetry scope guard', str(ex), '')
     E = ER.setup(run)
     fx = E.fx
     entries = [e for e in ER.api_entries(E.ir) if e not in ER.ENTRY_LOAD]
